@@ -21,7 +21,7 @@ SECOND_TIE = {
             "model's parse loop, both abstract here) and proved equal to the hand-written model of Model/Session.lean (Props/TiesSession.lean: component "
             "ties to sendBase / clientSend / serverSend / clientProcess / serverProcess / processLoop / recv, and one step tie per Call constructor)",
     "translator": "py2lean_session.py",
-    "targets": ["Verif.Props.TiesSession", "Verif.Props.TiesSessionRecv"],
+    "targets": ["Verif.Props.TiesSession", "Verif.Props.TiesSessionRecv", "Verif.Props.TiesSessionBridge"],
     "validate": "p_sessiongen.py",
 }
 LEVEL = "proof"
